@@ -52,8 +52,8 @@ section
 variable {c cs0 : Circuit} {bb : BBox} {dPort qPort : Name} {ig : List Name}
 
 /-- an (ordinary) output of the sequential circuit is an output of the pruned circuit under its own name -/
-theorem out_survives (G : SeqGood' c bb dPort qPort) (S : StripView c ig cs0) (ru : Bool) {o : Name} (ho : o ∈ c.outputs) :
-    o ∈ (prune cs0 bb (insts c) dPort qPort ru).outputs ∧ sname c ig o = o ∧ dropped c ig o = false ∧
+theorem out_survives (G : SeqGood' c bb dPort qPort) (K : NoClash c bb ig) (S : StripView c ig cs0) (ru : Bool) {o : Name} (ho : o ∈ c.outputs) :
+    o ∈ (prune cs0 bb (insts c) dPort qPort ig ru).outputs ∧ sname c ig o = o ∧ dropped c ig o = false ∧
       c.has o = true := by
   obtain ⟨a, ha, hout⟩ := (mem_outputs_iff c o).1 ho
   have hpin := G.outsOrdinary o ho
@@ -61,15 +61,15 @@ theorem out_survives (G : SeqGood' c bb dPort qPort) (S : StripView c ig cs0) (r
   have hattr : cs0.attr? o = some a := by
     rw [S.attrKeep o hhas hpin]
     exact attr?_of_mem G.clean.nodup ha
-  have h12 : o ∉ R12 c bb dPort qPort := not_R12_of_has G hhas
-  have h3 : o ∉ R3 (cs0.remove (R12 c bb dPort qPort)) (insts c) qPort ru := by
+  have h12 : o ∉ R12 c bb dPort qPort ig := not_R12_of_has K hhas
+  have h3 : o ∉ R3 (cs0.remove (R12 c bb dPort qPort ig)) (insts c) qPort ru := by
     intro h
     unfold R3 at h
     cases ru with
     | false => cases h
     | true =>
       simp only [if_true, List.mem_filter, Bool.and_eq_true, Bool.not_eq_true'] at h
-      have : (cs0.remove (R12 c bb dPort qPort)).isOut o = true :=
+      have : (cs0.remove (R12 c bb dPort qPort ig)).isOut o = true :=
         isOut_of_attr (by rw [remove_attr?, if_neg h12]; exact hattr) hout
       rw [this] at h
       exact absurd h.2.2 (by simp)
